@@ -1,0 +1,12 @@
+//go:build !verif
+// +build !verif
+
+package leveldb
+
+// No-op pick/commit-base hook points; the bodies are empty and inlined away when the verif tag is off.
+
+func verifNoteBase(s *session, v *version) {}
+
+func verifPickSeed(c *compaction) {}
+
+func verifNotePick(s *session, c *compaction, noTrivial bool) {}
